@@ -43,7 +43,7 @@ impl Mode {
 #[derive(Serialize, Deserialize, Clone, Copy, Debug, PartialEq, Eq, Default)]
 #[serde(rename_all = "snake_case")]
 pub enum PathForm {
-    /// one argument per file
+    /// one argument per file (or, when `path_args` is not empty, exactly those arguments)
     #[default]
     Explicit,
     /// `path_args` are directories that contain exactly the batch
@@ -336,8 +336,14 @@ impl Case {
         } else {
             match self.path_form {
                 PathForm::Explicit => {
-                    for f in &self.files {
-                        sc.argv.push(f.path.clone());
+                    if self.path_args.is_empty() {
+                        for f in &self.files {
+                            sc.argv.push(f.path.clone());
+                        }
+                    } else {
+                        // an explicit argument list that differs from the file list (e.g. the
+                        // same file named twice: the property quantifies over multisets)
+                        sc.argv.extend(self.path_args.iter().cloned());
                     }
                 }
                 PathForm::Directory | PathForm::Glob => {
@@ -655,7 +661,7 @@ impl Case {
         }
         if self.mode == Mode::Stdout && blocks_judgeable {
             let blocks: Vec<&[u8]> = expected_blocks.iter().map(|b| &b[..]).collect();
-            if !blocks_are_permutation(&r.stdout, &blocks, false) {
+            if !blocks_are_permutation(&r.stdout, &blocks, &[]) {
                 out.push(Finding {
                     oracle: "c16.stdout_mode_text_ne_stdin".into(),
                     detail: format!(
@@ -874,6 +880,8 @@ impl Case {
 
         let mut any_failed = false;
         let mut expected_blocks: Vec<&[u8]> = vec![];
+        // a file named k times may legitimately be printed 1..k times
+        let mut optional_blocks: Vec<&[u8]> = vec![];
         let mut judged_logs: Vec<&(String, String)> = vec![];
         for (i, f) in self.files.iter().enumerate() {
             let read_fault = r.read_failed.iter().any(|(p, _)| *p == f.path)
@@ -886,7 +894,16 @@ impl Case {
             let alone_failed = exit_nonzero(ar);
             any_failed |= read_fault || write_fault || alone_failed;
             let got = r.final_bytes(&sc, &f.path);
-            if read_fault {
+            let named = sc.argv.iter().filter(|a| **a == f.path).count();
+            if read_fault && named > 1 {
+                // one of several accesses to the same file failed: nothing is claimed about it
+                stats.probe("c18_repeated_file_with_injected_failure_unconstrained");
+                if !alone[i].1.stdout.is_empty() {
+                    for _ in 0..named {
+                        optional_blocks.push(&alone[i].1.stdout);
+                    }
+                }
+            } else if read_fault {
                 stats.probe("c18_file_with_injected_read_failure");
                 let orig = if f.exists { Some(&f.bytes[..]) } else { None };
                 if got != orig {
@@ -915,6 +932,10 @@ impl Case {
                 }
                 if !ar.stdout.is_empty() {
                     expected_blocks.push(&ar.stdout);
+                    let named = sc.argv.iter().filter(|a| **a == f.path).count();
+                    for _ in 1..named {
+                        optional_blocks.push(&ar.stdout);
+                    }
                 }
                 judged_logs.extend(ar.logs.iter());
             }
@@ -931,7 +952,7 @@ impl Case {
         }
         // stdout: the blocks of the files that were not made to fail, each contiguous, any order
         let faulted_print = r.fired.iter().any(|x| x.op == OpKind::Print && !x.kind.is_benign());
-        if !faulted_print && !blocks_are_permutation(&r.stdout, &expected_blocks, self.files.len() - expected_blocks.len() > 0 && self.mode == Mode::Stdout) {
+        if !faulted_print && !blocks_are_permutation(&r.stdout, &expected_blocks, &optional_blocks) {
             out.push(Finding {
                 oracle: "c18.stdout_blocks_mismatch".into(),
                 detail: format!(
@@ -961,31 +982,27 @@ impl Case {
     }
 }
 
-/// True when `got` is the concatenation of all `blocks` in some order. When `allow_extra` is
-/// set (files made to fail by injected write-side faults in stdout mode may or may not have
-/// printed), unexplained bytes are tolerated only as whole extra blocks at block boundaries,
-/// which we cannot attribute; in that case only containment of every expected block is checked.
-fn blocks_are_permutation(got: &[u8], blocks: &[&[u8]], allow_extra: bool) -> bool {
-    if allow_extra {
-        let mut used = vec![false; blocks.len()];
-        return contains_all(got, blocks, &mut used);
-    }
-    fn rec(got: &[u8], blocks: &[&[u8]], used: &mut Vec<bool>, depth: &mut u32) -> bool {
-        if used.iter().all(|u| *u) {
-            return got.is_empty();
+/// True when `got` is the concatenation, in some order, of all `required` blocks plus any
+/// subset of the `optional` ones.
+fn blocks_are_permutation(got: &[u8], required: &[&[u8]], optional: &[&[u8]]) -> bool {
+    let blocks: Vec<&[u8]> = required.iter().chain(optional.iter()).copied().collect();
+    let n_req = required.len();
+    fn rec(got: &[u8], blocks: &[&[u8]], n_req: usize, used: &mut Vec<bool>, depth: &mut u32) -> bool {
+        if got.is_empty() && used[..n_req].iter().all(|u| *u) {
+            return true;
         }
         *depth += 1;
         if *depth > 100_000 {
             return true; // give up rather than raise a doubtful alarm
         }
         for i in 0..blocks.len() {
-            if !used[i] && got.starts_with(blocks[i]) {
-                // identical blocks are interchangeable: skip duplicates of a failed attempt
-                if (0..i).any(|j| !used[j] && blocks[j] == blocks[i]) {
+            if !used[i] && !blocks[i].is_empty() && got.starts_with(blocks[i]) {
+                // identical blocks of the same class are interchangeable
+                if (0..i).any(|j| !used[j] && blocks[j] == blocks[i] && (j < n_req) == (i < n_req)) {
                     continue;
                 }
                 used[i] = true;
-                if rec(&got[blocks[i].len()..], blocks, used, depth) {
+                if rec(&got[blocks[i].len()..], blocks, n_req, used, depth) {
                     return true;
                 }
                 used[i] = false;
@@ -994,12 +1011,12 @@ fn blocks_are_permutation(got: &[u8], blocks: &[&[u8]], allow_extra: bool) -> bo
         false
     }
     let mut used = vec![false; blocks.len()];
+    // empty required blocks are trivially present
+    for (i, b) in blocks.iter().enumerate() {
+        if b.is_empty() {
+            used[i] = true;
+        }
+    }
     let mut depth = 0;
-    rec(got, blocks, &mut used, &mut depth)
-}
-
-fn contains_all(got: &[u8], blocks: &[&[u8]], _used: &mut [bool]) -> bool {
-    blocks.iter().all(|b| {
-        b.is_empty() || got.windows(b.len()).any(|w| w == *b)
-    })
+    rec(got, &blocks, n_req, &mut used, &mut depth)
 }
